@@ -60,6 +60,7 @@ var preludeDecls = []preludeDecl{
 	{"ctx_done", "(declare-fun ctx_done (Int) Int)", nil},
 	{"chan_cap", "(declare-fun chan_cap (Int) Int)", nil},
 	{"rtype", "(declare-fun rtype (Int) String)", nil},
+	{"mutex_addr", "(declare-fun mutex_addr (Int Int) Int)\n(assert (forall ((a Int) (f Int) (b Int) (g Int)) (! (=> (= (mutex_addr a f) (mutex_addr b g)) (and (= a b) (= f g))) :pattern ((mutex_addr a f) (mutex_addr b g)))))", nil},
 	{"help_text", "(declare-fun help_text (Int) String)", nil},
 }
 
